@@ -55,6 +55,7 @@ struct ItemSpec {
     viter_skip: Vec<String>,
     forpat: bool,
     fmt_nonempty: bool,
+    add_ufcs: bool,
     viter: bool,                         // apply R5 (iterator entry) to this item
     attrs: Vec<String>,                  // extra attributes (e.g. verifier::rlimit)
     replace_macros: Vec<(String, String)>, // R1b: statement macro -> nothing (named)
@@ -332,6 +333,7 @@ fn parse_template(text: &str) -> Vec<Result<String, ItemSpec>> {
                         "viter-skip" => spec.viter_skip.push(arg.to_string()),
                         "forpat" => spec.forpat = true,
                         "fmt-nonempty" => spec.fmt_nonempty = true,
+                        "add-ufcs" => spec.add_ufcs = true,
                         "drop-derive" => spec.drop_derive.push(arg.to_string()),
                         "attr" => spec.attrs.push(arg.to_string()),
                         "loop" => {
@@ -1050,6 +1052,9 @@ fn inner_edits(spec: &ItemSpec, src: &str, block: &syn::Block, c: &rewrite::Coll
     }
     if spec.fmt_nonempty {
         rewrite::fmt_edits(block, src, edits, rewrites);
+    }
+    if spec.add_ufcs {
+        rewrite::add_ufcs_edits(block, src, edits, rewrites);
     }
 }
 
